@@ -55,7 +55,7 @@ T = Fraction(1, 3)
 KV2 = (0, 0, 0, H, 1, 1, 1)          # degree 2, 4 control points
 KV2U = (0, 0, 0, 1, 2, 2, 2)         # the same on [0, 2] (normalize_kv=False)
 KV1 = (0, 0, 1, 1)                   # degree 1, 2 control points
-KV1i = (0, 0, H, 1, 1)               # degree 1, 3 control points
+KV1i = (0, 0, T, 1, 1)               # degree 1, 3 control points (the sample u = 1/2 is not a knot)
 
 KINDS = {
     'BC2': dict(mod='BSpline', geo='Curve', rat=False, dim=2, deg=(2,), kv=(KV2,), size=(4,), sample=(3,)),
@@ -65,9 +65,9 @@ KINDS = {
     'BS': dict(mod='BSpline', geo='Surface', rat=False, dim=3, deg=(2, 1), kv=(KV2, KV1), size=(4, 2), sample=(3, 2)),
     'NS': dict(mod='NURBS', geo='Surface', rat=True, dim=3, deg=(2, 1), kv=(KV2, KV1), size=(4, 2), sample=(3, 2)),
     'BV': dict(mod='BSpline', geo='Volume', rat=False, dim=3, deg=(1, 1, 1), kv=(KV1i, KV1, KV1), size=(3, 2, 2),
-               sample=(2, 2, 2)),
+               sample=(3, 2, 2)),
     'NV': dict(mod='NURBS', geo='Volume', rat=True, dim=3, deg=(1, 1, 1), kv=(KV1i, KV1, KV1), size=(3, 2, 2),
-               sample=(2, 2, 2)),
+               sample=(3, 2, 2)),
     # thorough only: knot vectors that are not normalised
     'BC2u': dict(mod='BSpline', geo='Curve', rat=False, dim=2, deg=(2,), kv=(KV2U,), size=(4,), sample=(3,),
                  normalize=False),
@@ -344,11 +344,12 @@ def _kv_u(o):
 
 
 def m_degree(ctx, o):
-    # lower (raise if 1) the degree of the first direction by one and give the matching clamped knot vector
+    # raise (lower if there are too few points) the degree of the first direction by one and give the matching
+    # clamped knot vector with uniform interior knots
     pd = o.pdimension
     p = o.degree if pd == 1 else o.degree_u
     n = o.ctrlpts_size if pd == 1 else o.ctrlpts_size_u
-    q = p - 1 if p >= 2 else p + 1
+    q = p + 1 if n >= p + 2 else p - 1
     inner = n - q - 1
     kv = _lits(ctx, [0] * (q + 1) + [Fraction(i + 1, inner + 1) for i in range(inner)] + [1] * (q + 1))
     if pd == 1:
@@ -546,7 +547,8 @@ def _legal(kname, tier):
     if kname in CONTAINERS:
         ms = ['add', 'delta', 'sample_size', 'translate'] + (['scale', 'rotate'] if th else [])
         if kname != 'CC':
-            ms += ['delta_u', 'sample_size_u'] + (['delta_v', 'sample_size_v'] if th else [])
+            ms += ['delta_u'] + (['sample_size_u'] if th or kname == 'SC' else []) + \
+                  (['delta_v', 'sample_size_v'] if th else [])
         if kname == 'VC' and th:
             ms += ['delta_w', 'sample_size_w']
         return ms
@@ -618,7 +620,7 @@ def mutator_preserves_inv(ctx, kind, mut, state, order='fwd'):
 
 
 def _reader_instances():
-    return [dict(kind=k, order=order) for k in SPLINES + CONTAINERS for order in ('fwd', 'rev')]
+    return [dict(kind=k, order=order) for k in SPLINES + ('CC', 'VC', 'SC') for order in ('fwd', 'rev')]
 
 
 @scenario('C12', fns=['NURBS.Curve.ctrlpts', 'NURBS.Curve.weights', 'NURBS.Surface.ctrlpts', 'NURBS.Surface.weights',
